@@ -1459,6 +1459,12 @@ class Model(Object):
             existing = new_reactions.query(lambda rxn: rxn.id in self.reactions)
             for reaction in existing:
                 reaction.id = f"{prefix_existing}{reaction.id}"
+        for reaction in new_reactions:
+            # reactions that will be ignored must not stay linked to metabolites
+            # that other reactions bring into the model
+            if reaction.id in new_model.reactions:
+                for met in reaction.metabolites:
+                    met._reaction.discard(reaction)
         new_model.add_reactions(new_reactions)
         interface = new_model.problem
         new_vars = [
